@@ -10,7 +10,7 @@ for f in sorted(glob.glob("/verif/seeded/*/meta.json")):
 caught0 = sum(1 for r in rows if r[5] == "yes")
 out = ["## 7. Seeded changes and which check catches which", "",
        "Every change below was written by a fresh sub-agent that was given only the text of one property and a scratch git worktree of /repo (nothing from /verif), asked for a change that still compiles and passes the unedited suite but breaks the property only under something specific. Each was confirmed independently (`tools/verify_mutant.sh`: build, full suite with the tag off, demonstration failing with the change and passing without it) and then run against the checks (`tools/trymutant.sh <patch> <ID>`: scratch copy of /repo with the patch, `./check <ID> quick`). They live in `/verif/seeded/<id>/` (patch.diff, the demonstration, meta.json); none was ever applied to /repo.", "",
-       "%d changes; %d were caught by the checks as they were when the change arrived; the other %d exposed gaps that were closed (last column), after which all %d are caught in the quick tier. No check was loosened; every strengthening was re-run on the unchanged tree at several seeds." % (len(rows), caught0, len(rows) - caught0, len(rows)), "",
+       "%d changes; %d were caught by the checks as they were when the change arrived; the other %d exposed gaps that were closed (last column), after which all %d are caught in the quick tier. No check was loosened; every strengthening was re-run on the unchanged tree at several seeds. The whole set is re-run against the final checks with `tools/runseeded.sh` (regression: a later strengthening must not lose an earlier catch); the last full regression, after round 6, caught 240 and lost one (C11-5B, a matter of case order inside a child process; repaired and re-run, see section 4.1); two earlier regressions had shown three catches that depended on luck (C16-B, C11-2A, C07-4B) and two harness errors that turned verdicts into broken runs (C08, C16), all repaired." % (len(rows), caught0, len(rows) - caught0, len(rows)), "",
        "| id | change | needs | caught by | firing key | caught at arrival | strengthening |", "|---|---|---|---|---|---|---|"]
 for r in rows:
     out.append("| " + " | ".join(r) + " |")
